@@ -210,7 +210,7 @@ def random_graph(rng, max_v=3, max_d=5, max_deps=2):
             continue
 
 
-def check_graph(g):
+def check_graph(g, allow_unused=False):
     """numbering convention of the family: vertex k emits data k, dependencies refer to inputs or to data of smaller vertices"""
     nv = len(g["deps"])
     used = set()
@@ -221,7 +221,7 @@ def check_graph(g):
                     assert (x < v or nv < x <= g["nd"]), ("bad reference", v, x)
                     used.add(x)
             assert d["t"] != d["c"]
-    assert all(i in used for i in range(nv + 1, g["nd"] + 1)), "unused input"
+    assert allow_unused or all(i in used for i in range(nv + 1, g["nd"] + 1)), "unused input"
     return g
 
 
@@ -297,6 +297,9 @@ FIXED = [
     ("v2.3c2", 3),
     ("v4_v4_v1u2", 4),
     ("v4_v4u1_v2c1e", 4),
+    ("v4_v5_v2c1", 5),
+    ("v4_v5_v2u1", 5),
+    ("v3_v4", 4),
 ]
 
 
@@ -465,6 +468,9 @@ def normalise(events):
             out.append(dict(L2_DEF, t=t, k=k, v=e["v"]))
         elif k == "fin":
             out.append(dict(L2_DEF, t=t, k=k, a=e["code"]))
+        elif k == "pt":
+            if t not in obs:
+                out.append(dict(L2_DEF, t=t, k=k))
         elif k == "waitret":
             resetting = True
             out.append(dict(L2_DEF, t=t, k=k))
@@ -499,6 +505,12 @@ def committed_families():
     live = [{"g": check_graph({"nd": nd, "deps": parse_g(gs)}), "x": x, "cycles": parse_cy(cy, nd)}
             for gs, nd, x, cy in (("v2", 2, 0, "t1-p2-j0-ktt-f_t1-p2-j0-ktt-f"), ("v3_v1", 3, 1, "t2-p3-j0-kttt-f"), ("v2c3", 3, 1, "t1-p23-j0-kttf-f"),
                                   ("v3_v4u1e", 4, 2, "t2-p34-j0-kfttt-f"), ("v4_v4_v1.2", 4, 2, "t3-p4-j0-ktttt-f"))]
+    # one conditional dependency whose condition and target are published by different threads (two pool workers /
+    # a worker and the injector), both target orders; two targets one of which is an input published during run()
+    for gs, nd, x, cy in (("v4_v5_v2c1", 5, 2, "t23-p45-j0-kttttt-f"), ("v4_v5_v2c1", 5, 2, "t32-p45-j0-kfttft-f"), ("v4_v5_v2u1", 5, 2, "t23-p45-j0-kfttff-f")):
+        quick.append({"g": check_graph({"nd": nd, "deps": parse_g(gs)}), "x": x, "cycles": parse_cy(cy, nd)})
+    for gs, nd, x, cy in (("v3_v4c1", 4, 1, "t2-p3-j4-ktttt-f"), ("v3_v4u1", 4, 1, "t2-p3-j4-kfttt-f"), ("v3_v4", 4, 1, "t41-p3-j4-ktttt-f"), ("v3_v4", 4, 0, "t14-p3-j4-ktttt-f")):
+        inj.append({"g": check_graph({"nd": nd, "deps": parse_g(gs)}), "x": x, "cycles": parse_cy(cy, nd)})
     # smallest witness of finding C05_concurrent_input_emit_not_counted: I -> V -> T, the input published by another thread
     finding = [{"g": check_graph({"nd": 2, "deps": parse_g("v2")}), "x": 1, "cycles": parse_cy("t1-p-j2-ktt-f", 2)}]
     return {"Fam_quick": quick, "Fam_inj": inj, "Fam_finding": finding, "Fam_live": live, "Fam_deep": deep}
